@@ -66,7 +66,7 @@ def _simple_arg(g, a, depth=0):
         return _simple_arg(g, n["sub"], depth + 1)
     if k == "call" and n.get("op") in ("*", "->") and "recv" in n and not n.get("args"):
         return _simple_arg(g, n["recv"], depth + 1)
-    if k == "call" and n.get("cname") in ("get", "move", "ref", "cref") and len(n.get("args", [])) + (1 if "recv" in n else 0) == 1:
+    if k == "call" and n.get("cname") in ("get", "move", "ref", "cref", "value", "c_str", "data", "size", "fd") and len(n.get("args", [])) + (1 if "recv" in n else 0) == 1:
         return _simple_arg(g, n["recv"] if "recv" in n else n["args"][0], depth + 1)
     return False
 
@@ -123,6 +123,11 @@ def _stmt_of(g, c):
         gp = g.parent.get(par)
         if gp is not None and g.nodes[gp]["k"] == "compound":
             return "init", par
+    if pn["k"] == "bin" and pn.get("op") == "=" and g.strip(pn["r"]) == c and g.nodes[g.strip(pn["l"])]["k"] == "ref" \
+            and g.nodes[g.strip(pn["l"])].get("dk") == "local":
+        gp = g.parent.get(par)
+        if gp is not None and g.nodes[gp]["k"] == "compound":
+            return "assign", par
     return None, None
 
 
@@ -148,7 +153,7 @@ def _fold(prog, g, c, h):
         return None
     rets = [i for i, n in enumerate(h.nodes) if n["k"] == "return"]
     init_mode = None
-    if shape == "init":
+    if shape in ("init", "assign"):
         vals = [h.nodes[r].get("val") for r in rets]
         if any(v is None for v in vals) or not rets:
             return None
@@ -194,6 +199,9 @@ def _fold(prog, g, c, h):
         else:
             subst[p["decl"]] = g.strip(a)
     v_rec = g.nodes[stmt]["vars"][0] if shape == "init" else None
+    if shape == "assign":
+        lref = g.nodes[g.strip(g.nodes[stmt]["l"])]
+        v_rec = {"name": lref["name"], "decl": lref["decl"]}
 
     def fix_refs(nodes, in_lambda=False):
         for m in nodes:
@@ -221,13 +229,30 @@ def _fold(prog, g, c, h):
             if h.kind == "lambda" and not in_lambda and m.get("captured"):
                 m.pop("captured", None)        # the closure's captures are the caller's own variables again
     fix_refs(new_nodes)
+    extra_nodes = []
     if init_mode and init_mode[0] == "alias":
         for m in new_nodes:
             if m["k"] == "decl":
                 for v in m.get("vars", []):
                     if v.get("decl") == init_mode[1]:
-                        v["name"], v["decl"] = v_rec["name"], v_rec["decl"]
+                        if shape == "init":
+                            v["name"], v["decl"] = v_rec["name"], v_rec["decl"]
+                        elif len(m.get("vars", [])) == 1:
+                            # the caller's variable exists already: the helper's declaration of its result becomes an assignment to it
+                            init = v.get("init")
+                            lc = {k_: m[k_] for k_ in ("line", "col") if k_ in m}
+                            mid = m["id"]
+                            m.clear()
+                            if isinstance(init, int) and init >= 0:
+                                nid = off + len(new_nodes) + len(extra_nodes)
+                                rn_ = copy.deepcopy(g.nodes[g.strip(g.nodes[stmt]["l"])])
+                                rn_["id"] = nid
+                                extra_nodes.append(rn_)
+                                m.update({"id": mid, "k": "bin", "op": "=", "l": nid, "r": init, **lc})
+                            else:
+                                m.update({"id": mid, "k": "other", "cls": "InlinedResultDecl", "kids": [], **lc})
     g.nodes.extend(new_nodes)
+    g.nodes.extend(extra_nodes)
     # the call itself (and, for a tail call, the caller's return) are replaced by the body
     cn_args = list(cn.get("args", []))
     where = g.loc(c)
@@ -257,7 +282,7 @@ def _fold(prog, g, c, h):
                 m["lusr"] = l2.usr
     # ---- return nodes
     ret_ids = [r + off for r in rets]
-    if shape in ("stmt", "init"):
+    if shape in ("stmt", "init", "assign"):
         for r in ret_ids:
             m = g.nodes[r]
             val = m.get("val")
@@ -265,8 +290,11 @@ def _fold(prog, g, c, h):
             m.clear()
             m.update({"id": r, "k": "other", "cls": "InlinedReturn", "kids": [val] if (shape == "stmt" and isinstance(val, int) and val >= 0) else [], **lm})
     if init_mode and init_mode[0] == "value":
-        v_rec["init"] = init_mode[1] + off
-        g.nodes[stmt]["kids"] = [v_rec["init"]]
+        if shape == "init":
+            v_rec["init"] = init_mode[1] + off
+            g.nodes[stmt]["kids"] = [v_rec["init"]]
+        else:
+            g.nodes[stmt]["r"] = init_mode[1] + off
     if init_mode and init_mode[0] == "alias":
         d = g.nodes[stmt]
         ld = {k_: d[k_] for k_ in ("line", "col") if k_ in d}
@@ -338,7 +366,7 @@ def _fold(prog, g, c, h):
         g._parent = None
         if par is None:
             pass
-        elif shape == "init" and init_mode[0] == "value":
+        elif shape in ("init", "assign") and init_mode[0] == "value":
             # body first, the declaration (now initialised with the returned expression) after it
             pk = g.nodes[par].get("kids", [])
             if stmt in pk:
@@ -416,6 +444,12 @@ def fold_new_helpers(prog, rounds=3):
                 h.d["inlined_into"] = g.usr
                 done.append(r)
                 changed = True
+                # the helper now lives in its caller; its own definition (and the closures defined in it, of which the caller
+                # received copies) would only be seen twice by rules that scan every function
+                if h.kind != "lambda":
+                    for l in [x for x in prog.fns.values() if x.d.get("parentfn") == h.usr]:
+                        prog.fns.pop(l.usr, None)
+                prog.fns.pop(h.usr, None)
         if not changed:
             break
     return done
